@@ -4,9 +4,9 @@ CONSTANTS
   MaxStmts = 2
   FuncKinds = {"func"}
   BodyKinds = {"call"}
-  StmtKinds = {"call", "cmd", "assign", "mcall1", "mcall2", "if", "for", "switch", "defer", "var", "lamexpr", "lamblk", "funclit", "fwd", "swtag", "swbare", "swbare2", "selsend"}
-  GapSet = "g5"
-  CaseGapSet = "g2"
+  StmtKinds = {"call", "swtag", "swbare", "swbare2", "selsend"}
+  GapSet = "g2"
+  CaseGapSet = "g1"
   FileKind = "xgo"
   RelBases = {"same"}
 INVARIANTS TypeOK IdsOnce StmtStart Monotone DocAdjacent Balanced DeviationsNamed HelpersDeclared RelCorrect Export
